@@ -24,7 +24,8 @@ RULE = (
 )
 ASSUMPTIONS = [
     "aggregate() is called exactly once, as every caller in the tool does",
-    "paths are ones a file system can hold: no name is both a file and a folder, no duplicates, '/' separated",
+    "no duplicate file paths, '/' separated; a quarter of the runs also puts a FILE and a FOLDER of the same name under one parent "
+    "(the data model lists them as 'name' and 'name/'; a file system could not hold both, so C11 never does this)",
     "file loc is the sum of its function lengths, as Scanner._analyze_file computes it",
 ]
 FLOOR = {"quick": 300, "thorough": 5000}
@@ -186,14 +187,14 @@ def _labels(cb):
     return labels, (depth >= 3 and len(langs) >= 2 and big)
 
 
-def gen(col, seed, n, wild=False):
+def gen(col, seed, n, wild=False, clash=False):
     def body(cb):
         labels, nt = _labels(cb)
         col.eval(cb, nontrivial=nt, labels=labels + ["wild-names" if wild else "plain-names"])
 
-    run_given(body, G.codebases(wild=wild), seed, n)
+    run_given(body, G.codebases(wild=wild, clash=clash), seed, n)
 
 
 def plan(tier, seed):
     total = 4800 if tier == "quick" else 80000
-    return [("gen", {"seed": shard_seed(seed, ID, i), "n": total // 16, "wild": i % 4 == 3}) for i in range(16)]
+    return [("gen", {"seed": shard_seed(seed, ID, i), "n": total // 16, "wild": i % 4 == 3, "clash": i % 4 == 2}) for i in range(16)]
